@@ -6,7 +6,7 @@ from auditsim import repo as R
 from auditsim import world as W
 from auditsim import gen as G
 from auditsim.driver import AuditRun
-from auditsim.log import Outcome, same, close
+from auditsim.log import Outcome, same, close, tight
 
 PROP = "C06"
 TIERS = {
@@ -29,7 +29,24 @@ COMPONENTS = {
 }
 PROBES = ["datum equals u", "datum equals 0", "super-majority bound > 1", "super-majority bound < 1", "pooled CVR in data",
           "phantom CVR in data", "phantom MVR in data", "MVR lacks contest under style", "threshold filter removed a sampled card",
-          "style off", "margins from tallies"]
+          "style off", "margins from tallies", "margins revised between rounds", "polling contest inside a comparison audit"]
+
+
+def _variants(rng, case):
+    """margins revised between rounds; one contest of a comparison audit audited by polling"""
+    w = case["world"]
+    if case.get("margins_via_tally"):
+        case["tally_rules"] = rng.chance(0.5)
+        for r, rnd in enumerate(case["rounds"]):
+            rnd["remargin"] = bool(r > 0 and rng.chance(0.35))
+    elif w["audit_type"] == W.COMPARISON and len(w["contests"]) >= 2 and rng.chance(0.15):
+        cid = rng.pick(sorted(w["contests"]))
+        cs = w["contests"][cid]
+        cs["audit_type"] = W.POLLING
+        cs.update(W.gen_test(rng, W.POLLING))
+        cs["cards"] = None
+        case["mixed"] = True
+    return case
 
 
 def generate(rng, tier):
@@ -39,7 +56,7 @@ def generate(rng, tier):
     tally_ok = (case["world"]["audit_type"] != W.POLLING and
                 all(c["choice_function"] in (W.PLURALITY, W.APPROVAL) for c in case["world"]["contests"].values()))
     case["margins_via_tally"] = bool(tally_ok and rng.chance(0.5))
-    return case
+    return _variants(rng, case)
 
 
 class Monitor:
@@ -48,7 +65,7 @@ class Monitor:
 
     def _formula(self, run, cid, asn):
         ub = asn.assorter.upper_bound
-        if run.polling:
+        if run.polling or run.world["contests"][cid]["audit_type"] == W.POLLING:
             return ub
         return 2 / (2 - asn.margin / ub)
 
@@ -88,14 +105,16 @@ class Monitor:
                             f"{asn.assorter.upper_bound})")
             bad = [x for x in d if not (-1e-12 <= x <= u + 1e-12)]
             if bad:
-                out.violate("C06.a", f"{run.world['audit_type']}/{run.world['contests'][cid]['choice_function']}",
+                out.violate("C06.a", f"{run.world['contests'][cid]['audit_type']}/{run.world['contests'][cid]['choice_function']}",
                             f"{cid}/{key}: datum {bad[0]!r} outside [0, {u}] (round {r})")
             if any(abs(x - u) <= 1e-12 for x in d):
                 out.probe("datum equals u")
             if any(abs(x) <= 1e-12 for x in d):
                 out.probe("datum equals 0")
             # which cards contribute
-            if run.polling:
+            if run.polling or run.world["contests"][cid]["audit_type"] == W.POLLING:
+                if not run.polling:
+                    out.probe("polling contest inside a comparison audit")
                 exp = [asn.assorter.assort(m) for m in run.mvr_sample]
             else:
                 exp = []
@@ -120,7 +139,7 @@ class Monitor:
                     except Exception:
                         exp = None
                         break
-            if exp is not None and (len(exp) != len(d) or any(not same(a, b) for a, b in zip(exp, d))):
+            if exp is not None and (len(exp) != len(d) or any(not tight(a, b) for a, b in zip(exp, d))):
                 out.violate("C06.d", f"{run.world['audit_type']}/style={run.use_style}",
                             f"{cid}/{key}: {len(d)} data values but {len(exp)} cards list the contest within its "
                             f"threshold (round {r}); data {d[:6]} expected {[float(x) for x in exp[:6]]}")
@@ -146,11 +165,11 @@ class Monitor:
         for cid, con in run.contests.items():
             for key, asn in con.assertions.items():
                 u = self.last.get((cid, key))
-                if u is not None and not same(asn.test.u, u):
+                if u is not None and not tight(asn.test.u, u):
                     self.out.violate("C06.c", f"installed/{run.world['audit_type']}",
                                      f"{cid}/{key}: data came with bound {u} but the test is left with u={asn.test.u}")
                 su = self.seen.get((cid, key))
-                if u is not None and su is not None and not same(su, u):
+                if u is not None and su is not None and not tight(su, u):
                     self.out.violate("C06.c", f"in-force/{run.world['audit_type']}",
                                      f"{cid}/{key}: data came with bound {u} but while the p-values were computed the test had u={su}")
 
